@@ -69,6 +69,8 @@ where
     S: Fcntl + Read + Sigmask,
 {
     async fn read_all_to(&self, fd: Fd, buffer: &mut Vec<u8>) -> Result<(), Errno> {
+        #[cfg(feature = "verif-hooks")]
+        crate::system::r#virtual::sim_hook::preempt_point_current("read").await;
         let mut this = TemporaryNonBlockingGuard::new(self, fd);
         let waker = LazyCell::default();
         let mut effective_length = buffer.len();
@@ -86,6 +88,11 @@ where
                 }
                 Ok(n) => {
                     effective_length += n;
+                    #[cfg(feature = "verif-hooks")]
+                    {
+                        crate::system::r#virtual::sim_hook::preempt_point_current("read").await;
+                        this.ensure_nonblocking();
+                    }
                 }
 
                 #[allow(
@@ -94,6 +101,8 @@ where
                 )]
                 Err(Errno::EAGAIN | Errno::EWOULDBLOCK) => {
                     this.yield_for_read(fd, &waker).await;
+                    #[cfg(feature = "verif-hooks")]
+                    crate::system::r#virtual::sim_hook::preempt_point_current("read").await;
                     this.ensure_nonblocking();
                 }
 
@@ -150,6 +159,8 @@ where
             return Ok(());
         }
 
+        #[cfg(feature = "verif-hooks")]
+        crate::system::r#virtual::sim_hook::preempt_point_current("write").await;
         let mut this = TemporaryNonBlockingGuard::new(self, fd);
         let waker = LazyCell::default();
         loop {
@@ -160,6 +171,8 @@ where
                 )]
                 Ok(0) | Err(Errno::EAGAIN | Errno::EWOULDBLOCK) => {
                     this.yield_for_write(fd, &waker).await;
+                    #[cfg(feature = "verif-hooks")]
+                    crate::system::r#virtual::sim_hook::preempt_point_current("write").await;
                     this.ensure_nonblocking();
                 }
 
@@ -167,6 +180,11 @@ where
                     data = &data[n..];
                     if data.is_empty() {
                         return Ok(());
+                    }
+                    #[cfg(feature = "verif-hooks")]
+                    {
+                        crate::system::r#virtual::sim_hook::preempt_point_current("write").await;
+                        this.ensure_nonblocking();
                     }
                 }
 
